@@ -84,6 +84,8 @@ func (p *parser) ParseConfig(data []byte, fName string) (
 	isFirstSubCmd := false
 	// Indentation count of subcommand.
 	indent := 1
+	// First subcommand, shown in error message on bad indentation.
+	firstSub := ""
 	// Mark commands found after [APPEND] marker.
 	isAppend := false
 	isRaw := path.Ext(fName) == ".raw"
@@ -129,12 +131,12 @@ func (p *parser) ParseConfig(data []byte, fName string) (
 				// This applies to following subcommands as well.
 				isFirstSubCmd = false
 				indent = getIndent()
+				firstSub = line
 			} else {
 				if getIndent() < indent {
 					return nil,
 						fmt.Errorf("Bad indentation in subcommands:\n"+
-							">>%s<<\n>>%s<<",
-							strings.Repeat(" ", indent)+prev.sub[0].parsed, line)
+							">>%s<<\n>>%s<<", firstSub, line)
 				}
 			}
 			line = line[indent:]
